@@ -82,7 +82,7 @@ def gen_bo(tape, spec):
     return {'bounds': bounds, 'noise_form': nv, 'noise': noise, 'batch_size': bs, 'bpa': bpa,
             'init_form': init_form, 'n_init': n_init, 'n_pre': n_pre, 'update_interval': ui,
             'acq': acq, 'n_evidence': n_evidence, 'continue': cont,
-            'async': tape.chance('async_acq', 1, 4), 'seed': tape.int('seed', 0, 2 ** 20),
+            'async': tape.chance('async_acq', 1, 4), 'seed': sr.gen_seed(tape),
             'via_infer': tape.chance('via_infer', 1, 10),
             'tm_order': tape.choice('surrogate_param_order', ['sorted', 'sorted', 'reversed']),
             'bolfi': tape.chance('bolfi', 1, 3)}
